@@ -1294,12 +1294,27 @@ def q7(facts, tier):
     loopv = [t for c, a, n in pv.sites for t in a if is_loopvar(t)]
     # range of the loop
     rng = next((t[2] for t in loopv if len(t) > 2), None)
+    if isinstance(rng, tuple) and rng[0] == "call" and rng[1].endswith(("::rev", "::into_iter")) and len(rng[2]) == 1:
+        rng = rng[2][0]         # the order of the versions does not matter
     full = isinstance(rng, tuple) and rng[0] == "call" and rng[1].endswith("RangeInclusive::new") and rng[2][0] == ("const", 0) \
         and isinstance(rng[2][1], tuple) and rng[2][1][0] == "call" and rng[2][1][1].endswith("get_latest_version")
     is_range = isinstance(rng, tuple) and ((rng[0] == "call" and rng[1].endswith("RangeInclusive::new")) or
                                              (rng[0] == "adt" and str(rng[1]).endswith("ops::range::Range")))
     yield ob(["C15"], "Q7", "loop-covers-all-versions", "pass" if full else ("violation" if is_range else "undecided"), where(f),
              "the ledger loop runs over 0..=T::get_latest_version()" if full else f"the ledger loop runs over {show_term(rng)}, not 0..=latest")
+    # inside the loop the only exits are failures: success is reported after all versions have been handled
+    early = []
+    for x in walk(f["body"]):
+        if x.get("k") == "For":
+            for y in walk(x["body"]):
+                if y.get("k") == "Return" and y.get("e") is not None:
+                    e_ = peel_block(peel(y["e"]))
+                    if e_.get("k") == "Adt" and e_.get("variant") == "Ok":
+                        early.append(y)
+    yield ob(["C15"], "Q7", "no-success-before-all-versions", "violation" if early else "pass", where(f, early[0] if early else None),
+             "the ledger loop is left only by an error; Ok is returned after the last version" if not early else
+             "verify_compatiblity returns Ok from inside the loop over versions: the versions not yet visited are neither checked against "
+             "their recorded files nor recorded - a change that breaks only an older recorded version is accepted")
     for c, a, n in saves:
         ok = len(a) >= 3 and def_of_loop(a[2])
         other = len(a) >= 3 and (def_of_other(a[2]))
